@@ -45,6 +45,13 @@ def draw(rng, index):
     invalid = rng.random() < 0.18
     remove_set = rng.choice([None, None, "leaves", "normal"] + suitegen.leaf_names(spec)[:1])
     case["remove_set"] = remove_set or "leaves"
+    # a vm may have its own remove set (remove_set_<vm>) that differs from the generic one
+    case["remove_sets"] = {}
+    if len(selected) >= 1 and rng.random() < 0.35:
+        for vm in rng.sample(selected, rng.randint(1, len(selected))):
+            own = rng.choice(["leaves", "normal"] + suitegen.leaf_names(spec)[:2])
+            if own != case["remove_set"]:
+                case["remove_sets"][vm] = own
     for vm in selected:
         # the target has to be part of the graph of the remove set for this vm (the tool rejects it otherwise)
         candidates = sorted(needed_setups(case, vm))
@@ -72,13 +79,15 @@ def draw(rng, index):
         case["pairs"][vm] = [from_state, to_state]
     if remove_set:
         vms_params["remove_set"] = remove_set
+    for vm, own in case["remove_sets"].items():
+        vms_params[f"remove_set_{vm}"] = own
     case["vms_params"] = vms_params
     return case
 
 
 def needed_setups(case, vm):
     """Setup tests in the graph of the remove set when every test is forced onto this vm (what update parses as clean graph)."""
-    spec, remove_set = case["suite_spec"], case["remove_set"]
+    spec, remove_set = case["suite_spec"], case.get("remove_sets", {}).get(vm, case["remove_set"])
     if remove_set == "all":
         return {s["name"] for s in spec["setups"]}
     variant = spec["vms"][vm]["variants"][0]
@@ -164,7 +173,7 @@ def judge(case, record):
                 kind = "on the updated path or before it" if set(spurious) & (set(chain_to_install(spec, case["pairs"][vm][1]))) else "unrelated"
                 mechanism = "saved states derived from the target state were not removed" if missing and not spurious else \
                     f"states that do not derive from the target state were removed ({kind})" if spurious else "unset mismatch"
-                problems.append((mechanism, f"{vm} {case['pairs'][vm]} remove_set {case['remove_set']} on {worker}: requested {sorted(requested)} "
+                problems.append((mechanism, f"{vm} {case['pairs'][vm]} remove_set {case.get('remove_sets', {}).get(vm, case['remove_set'])} on {worker}: requested {sorted(requested)} "
                                  f"expected {sorted(below)}"))
     return problems, counters, False
 
